@@ -186,6 +186,24 @@ func scenarioCorpus() []scenario {
 			}
 		}, fixed("add", "more")},
 		{"branch-hash-then-reset-same-pid", func(k *Walker) { k.Init(); twoCommits(k) }, fixed("reset", "--soft", "HEAD@{1}")},
+		{"config-global-shrinks", func(k *Walker) {
+			k.Init()
+			k.W.Goit("config", "--global", "user.name", "Alice Margaret Wonderland-Liddell")
+			k.W.Goit("config", "--global", "core.editor", "an editor with a rather long command line --wait")
+		}, fixed("config", "--global", "user.name", "Al")},
+		{"config-local-shrinks", func(k *Walker) {
+			k.Init()
+			k.W.Goit("config", "user.name", "Alice Margaret Wonderland-Liddell")
+		}, fixed("config", "user.name", "Al")},
+		{"switch-to-shorter-name", func(k *Walker) {
+			k.Init()
+			commitBase(k)
+			k.W.Goit("switch", "-c", "a-much-longer-branch-name-than-main")
+		}, fixed("switch", "main")},
+		{"rm-shrinks-index", func(k *Walker) {
+			k.Init()
+			commitBase(k)
+		}, fixed("rm", "dir", "dir.c")},
 		{"update-ref", func(k *Walker) {
 			k.Init()
 			twoCommits(k)
@@ -616,6 +634,9 @@ func runFaults(c *core.Ctx, w *core.World, name string, argv []string, randomHis
 		}
 		if res.Exit == 0 {
 			c.Oracle("C16.success-eq-reference")
+			if d := goitDirsDiff(spost, sk); d != "" {
+				fail(fc, "C16.success-eq-reference", "success-reported-directories-differ", trig, "%s: exit 0 but the directories of the repository are not those of the fault-free run: %s", where, d)
+			}
 			if d := decodedDiff(spost, sk); d != "" {
 				fail(fc, "C16.success-eq-reference", "success-reported-result-differs", trig, "%s: exit 0 but the result differs from the fault-free result: %s", where, d)
 			} else if !bytes.Equal(res.Stdout, ref.Stdout) {
@@ -666,6 +687,32 @@ func runFaults(c *core.Ctx, w *core.World, name string, argv []string, randomHis
 			}
 		}
 	}
+}
+
+// goitDirsDiff compares the sets of directories beneath .goit (empty ones included; objects/xx fan-out directories
+// follow from the objects and are left to the decoded view).
+func goitDirsDiff(a, b *sandbox.Snap) string {
+	set := func(sn *sandbox.Snap) map[string]bool {
+		m := map[string]bool{}
+		for d := range sn.Dirs {
+			if strings.HasPrefix(d, "w/.goit") && !strings.HasPrefix(d, "w/.goit/objects/") {
+				m[d] = true
+			}
+		}
+		return m
+	}
+	sa, sb := set(a), set(b)
+	for d := range sa {
+		if !sb[d] {
+			return "missing " + d
+		}
+	}
+	for d := range sb {
+		if !sa[d] {
+			return "extra " + d
+		}
+	}
+	return ""
 }
 
 // decodedDiff compares two snapshots on the decoded view (config as maps).
